@@ -2,7 +2,7 @@
 # Runs every registered quick check against /repo (regenerates all evidence files). usage: run_all.sh [tier]
 cd "$(dirname "$0")/.."
 TIER=${1:-quick}
-ids=$(python3 -c "import json;print(' '.join(c['property_id'] for c in json.load(open('MANIFEST.json'))['checks']))")
+ids=${IDS:-$(python3 -c "import json;print(' '.join(c['property_id'] for c in json.load(open('MANIFEST.json'))['checks']))")}
 rc_all=0
 for id in $ids; do
   out=$(./vcheck run $id --tier $TIER 2>&1); rc=$?
